@@ -374,3 +374,59 @@ REGISTRY = {
     'C08': dict(run=run_c08, level='proof'),
     'C10': dict(run=run_c10, level='proof'),
 }
+
+
+# ------------------------------------------------------------------------------------------- known findings
+def _probe_D13():
+    import tsh
+    _, _, cache = tsh.F.run_script(bytes([tsh.F.opcodes_inverse['OP_RETURN'][0]]))
+    c2 = {'returned': 'embedder value'}
+    try:
+        _, _, cache2 = tsh.F.run_script(tsh.P.compile_script('def 0 { } call d0'), c2)
+    except BaseException:
+        cache2 = c2
+    return ('returned' in cache) or ('returned' not in cache2)
+
+
+def _probe_D14():
+    import tsh
+    body = b''
+    for _ in range(2000):
+        body = b'\x01' + bytes([tsh.F.opcodes_inverse['OP_IF'][0]]) + len(body).to_bytes(2, 'big') + body
+        if len(body) > 60000:
+            break
+    try:
+        tsh.F.run_script(body)
+        return False
+    except RecursionError:
+        return True
+    except BaseException:
+        return False
+
+
+def _probe_D7():
+    import tsh
+    try:
+        tsh.F.run_script(tsh.P.compile_script('set_flag x02'))
+        return False
+    except BaseException as e:
+        return 'unrecognized flag' in str(e)
+
+
+def _probe_D11():
+    import tsh
+    tsh.pin()
+    now = tsh.Pins.now
+    lock = tsh.T.make_timestamp_before_lock(now + 30)
+    return bool(tsh.F.run_auth_scripts([lock.bytes], {'timestamp': now + 60}))
+
+
+def _probe_D15():
+    import builders, random as _r
+    for sc in builders.c17(_r.Random(1)):
+        if len(sc) > 5 and sc[5] == 'D15':
+            return not sc[4]
+    return False
+
+
+FINDING_PROBES = {'D13': _probe_D13, 'D14': _probe_D14, 'D7': _probe_D7, 'D11': _probe_D11, 'D15': _probe_D15}
